@@ -479,6 +479,8 @@ def _sort_ops(v):
 
 def _cmp_transform(kind, case, impl, model):
     from check import canon, first_diff
+    if isinstance(impl, dict) and "keys_validated" in impl:
+        impl = {k: v for k, v in impl.items() if k != "keys_validated"}   # the harness's note for the predicate
     a, b = canon(_sort_ops(impl)), canon(_sort_ops(model))
     return None if a == b else first_diff(a, b)
 
@@ -598,6 +600,11 @@ PROPS["C17"] = {
 
 def _c18_info_property(r):
     """canonical and equivalent ids "as given": the published info names the canonical id and one id per equivalent reference"""
+    if r["kind"] == "transform" and isinstance(r["impl"], dict) and r["impl"].get("class") == "err" and r["impl"].get("keys_validated"):
+        info, st = r["case"].get("info") or {}, r["case"].get("state") or {}
+        if isinstance(info.get("id"), str) and isinstance(info.get("published"), bool) and isinstance(st.get("doc"), dict):
+            # "every internal document built from validated keys" has a resolution result
+            return "transform/validated-keys/no-result"
     if r["kind"] != "tinfo" or not r["case"].get("published"):
         return None
     c, info = r["case"], r["impl"].get("info") or {}
